@@ -258,6 +258,28 @@ impl<'r, TC: ModelCfg> HistVisitor<TC> for V9<'r> {
                         p.proofs.swap(0, 1);
                         tampered.push(("epochs_and_proofs_permuted", hashes.clone(), p));
                     }
+                    // a forged LATER step: the step's unchanged nodes are dropped / taken from the first step, the
+                    // end hash of that step is whatever the auditor computes for the forged node set, and the audit
+                    // is cut after that step
+                    for i in 1..proof.proofs.len() {
+                        let end_epoch = proof.epochs[i] + 1;
+                        for (vname, unchanged) in [("emptied", vec![]), ("of_first_step", proof.proofs[0].unchanged_nodes.clone())] {
+                            let forged = SingleAppendOnlyProof { inserted: proof.proofs[i].inserted.clone(), unchanged_nodes: unchanged.clone() };
+                            let mut all = unchanged.clone();
+                            all.extend(forged.inserted.iter().map(|x| AzksElement { label: x.label, value: AzksValue(TC::hash_leaf_with_commitment(x.value, end_epoch).0) }));
+                            let Some(h_forged) = auditor_hash::<TC>(all, Some(end_epoch - 1)).await else { continue };
+                            if h_forged == hashes[i + 1] {
+                                continue; // nothing was forged (e.g. the step really had no unchanged nodes)
+                            }
+                            let mut p = proof.clone();
+                            p.proofs.truncate(i + 1);
+                            p.epochs.truncate(i + 1);
+                            p.proofs[i] = forged;
+                            let mut h = hashes[..=i + 1].to_vec();
+                            h[i + 1] = h_forged;
+                            tampered.push((if vname == "emptied" { "later_step_forged_unchanged_emptied" } else { "later_step_forged_unchanged_of_first_step" }, h, p));
+                        }
+                    }
                     // wrong epoch labels
                     let mut p = proof.clone();
                     for ep in p.epochs.iter_mut() {
